@@ -252,7 +252,11 @@ class _InlineSingleUse(ast.NodeTransformer):
 
     def visit_FunctionDef(self, node):
         self.generic_visit(node)
-        node.body = self._do(node.body, node)
+        for n in ast.walk(node):
+            for fld in ('body', 'orelse', 'finalbody'):
+                b = getattr(n, fld, None)
+                if isinstance(b, list) and b and isinstance(b[0], ast.stmt):
+                    setattr(n, fld, self._do(b, node))
         return node
 
     def _pure(self, e):
@@ -294,6 +298,143 @@ def inline_single_use_locals(root):
     return n
 
 
+class _Extract(object):
+    """extract-method: a run of top-level statements of a method becomes a new private method of the same class.
+    Conditions that make the transformation exact: the run contains no return / yield / break / continue / nested def /
+    lambda / global / nonlocal / del of a local; every local it reads is passed in; every local it writes that is read
+    afterwards is returned, and is either definitely assigned by a top-level plain assignment of the run or was passed in."""
+
+    FORBIDDEN = (ast.Return, ast.Yield, ast.YieldFrom, ast.Break, ast.Continue, ast.FunctionDef, ast.AsyncFunctionDef, ast.Lambda,
+                 ast.Global, ast.Nonlocal, ast.Delete, ast.Await, ast.ClassDef)
+
+    def __init__(self):
+        self.count = 0
+
+    @staticmethod
+    def _names(nodes, ctx):
+        out = []
+        for s in nodes:
+            for n in ast.walk(s):
+                if isinstance(n, ast.Name) and isinstance(n.ctx, ctx) and n.id not in out:
+                    out.append(n.id)
+        return out
+
+    def method(self, cls, fn):
+        if any(isinstance(d, (ast.Name, ast.Attribute)) and ast.unparse(d).split('.')[-1] in ('staticmethod', 'classmethod', 'contextmanager', 'property')
+               or isinstance(d, ast.Attribute) for d in fn.decorator_list):
+            return None
+        if not fn.args.args or fn.args.args[0].arg != 'self':
+            return None
+        if any(isinstance(n, (ast.Yield, ast.YieldFrom)) for n in ast.walk(fn)):
+            return None
+        # a function whose locals are captured by nested functions is left alone (closures see later rebinding)
+        nested = [n for n in ast.walk(fn) if n is not fn and isinstance(n, (ast.FunctionDef, ast.Lambda))]
+        captured = set(self._names(nested, ast.Load))
+        body = fn.body
+        start0 = 1 if body and isinstance(body[0], ast.Expr) and isinstance(getattr(body[0], 'value', None), ast.Constant) else 0
+        params = {a.arg for a in fn.args.args + fn.args.kwonlyargs} | ({fn.args.vararg.arg} if fn.args.vararg else set()) | \
+            ({fn.args.kwarg.arg} if fn.args.kwarg else set())
+        local_names = params | set(self._names(body, ast.Store))
+        for n in ast.walk(fn):
+            if isinstance(n, ast.ExceptHandler) and n.name:
+                local_names.add(n.name)
+        best = None
+        for i in range(start0, len(body)):
+            for j in range(min(len(body), i + 3), i, -1):
+                run = body[i:j]
+                if len(body) - (j - i) - start0 < 1:
+                    continue
+                if any(isinstance(n, self.FORBIDDEN) for s in run for n in ast.walk(s)):
+                    continue
+                if all(isinstance(s, (ast.Expr, ast.Pass, ast.Assert)) and not any(isinstance(n, ast.Call) for n in ast.walk(s)) for s in run):
+                    continue
+                reads = [n for n in self._names(run, ast.Load) if n in local_names]
+                writes = self._names(run, ast.Store)
+                if set(writes) & captured or any(isinstance(n, ast.NamedExpr) for s in run for n in ast.walk(s)):
+                    continue
+                if 'self' in writes:
+                    continue
+                after = self._names(body[j:], ast.Load)
+                out = [w for w in writes if w in after]
+                defined_before = params | set(self._names(body[:i], ast.Store))
+                top_assigned = {t.id for s in run if isinstance(s, ast.Assign) for t in s.targets if isinstance(t, ast.Name)}
+                ok = True
+                ins = [r for r in reads if r in defined_before]
+                for w in out:
+                    if w in top_assigned:
+                        continue
+                    if w in defined_before:
+                        if w not in ins:
+                            ins.append(w)
+                    else:
+                        ok = False
+                # a name read in the run before being written there must be defined before the run
+                if any(r not in defined_before and r not in top_assigned for r in reads):
+                    ok = False
+                # conditionally-defined names before the run (possible UnboundLocalError moves): require plain definitions
+                if not ok or len(ins) > 6 or len(out) > 3:
+                    continue
+                size = sum(1 for s in run for _ in ast.walk(s))
+                if size < 12:
+                    continue
+                best = (i, j, ins, out)
+                break
+            if best:
+                break
+        if not best:
+            return None
+        i, j, ins, out = best
+        run = body[i:j]
+        ins = [x for x in ins if x != 'self']
+        name = '_vx_%s_part' % fn.name.strip('_')
+        call = ast.Call(func=ast.Attribute(value=ast.Name(id='self', ctx=ast.Load()), attr=name, ctx=ast.Load()),
+                        args=[ast.Name(id=x, ctx=ast.Load()) for x in ins], keywords=[])
+        if out:
+            tgt = ast.Name(id=out[0], ctx=ast.Store()) if len(out) == 1 else ast.Tuple(elts=[ast.Name(id=x, ctx=ast.Store()) for x in out], ctx=ast.Store())
+            stmt = ast.Assign(targets=[tgt], value=call)
+            ret = ast.Return(value=ast.Name(id=out[0], ctx=ast.Load()) if len(out) == 1 else
+                             ast.Tuple(elts=[ast.Name(id=x, ctx=ast.Load()) for x in out], ctx=ast.Load()))
+            newbody = list(run) + [ret]
+        else:
+            stmt = ast.Expr(value=call)
+            newbody = list(run)
+        helper = ast.FunctionDef(name=name, args=ast.arguments(posonlyargs=[], args=[ast.arg(arg='self')] + [ast.arg(arg=x) for x in ins],
+                                                               kwonlyargs=[], kw_defaults=[], defaults=[]),
+                                 body=newbody, decorator_list=[], returns=None, type_comment=None)
+        fn.body = body[:i] + [stmt] + body[j:]
+        self.count += 1
+        return helper
+
+    def module(self, tree):
+        for c in [n for n in ast.walk(tree) if isinstance(n, ast.ClassDef)]:
+            new = []
+            for m in list(c.body):
+                new.append(m)
+                if isinstance(m, ast.FunctionDef) and m.name != '__init__':
+                    h = self.method(c, m)
+                    if h is not None:
+                        new.append(h)
+            c.body = new
+        return tree
+
+
+def extract_method(root):
+    """one run of statements per method moved into a new private method (parameters in, written-and-live names out)"""
+    n = 0
+    for p in _py_files(root):
+        src = open(p).read()
+        if not src.strip():
+            continue
+        tree = ast.parse(src)
+        ex = _Extract()
+        tree = ex.module(tree)
+        if ex.count:
+            open(p, 'w').write(ast.unparse(ast.fix_missing_locations(tree)) + '\n')
+            n += 1
+    return n
+
+
 VARIANTS = [('reformat', reformat), ('rename-locals', rename_locals), ('add-logging', add_logging),
             ('format-to-fstring', format_to_fstring), ('early-return-to-nested', early_return_to_nested),
-            ('inline-single-use-locals', inline_single_use_locals), ('rename-private-methods', rename_private_methods)]
+            ('inline-single-use-locals', inline_single_use_locals), ('rename-private-methods', rename_private_methods),
+            ('extract-method', extract_method)]
